@@ -17,6 +17,7 @@ class PackedPointsRoundTrip(Contract):
     variants = (1, 2, 3)
     level = "PF"
     max_paths = 60000
+    deadline_s = 180     # seconds on the unchanged tree; a changed decoder that stops consuming its input must not run for long
 
     def args(self, S, variant):
         return dict(points=[S.int("p%d" % i, 0, 65535) for i in range(variant)])
@@ -56,6 +57,7 @@ class PackedDeltasRoundTrip(Contract):
     variants = tuple((n, opt) for n in (1, 2, 3) for opt in (True, False))
     level = "PF"
     max_paths = 60000
+    deadline_s = 180     # see PackedPointsRoundTrip
 
     def args(self, S, variant):
         n, opt = variant
